@@ -1,0 +1,37 @@
+//go:build verif
+
+// Contracts for s1.ChordAngle arithmetic (property C19, "chord-angle arithmetic with clamping": all results are
+// valid values). Exact IEEE-754 semantics including the square root. What is decided is validity of the result
+// (a squared chord length in [0,4], never NaN) for every pair of ordinary operands; that Add/Sub approximate the
+// sum/difference of the angles is numerical and not decided. Comment-only.
+
+package s1
+
+//@ property C19
+
+// an ordinary (non-special) chord angle: a squared length in [0, 4]
+//@ spec func vcChord(c ChordAngle) bool = c >= 0 && c <= 4
+
+//@ func (c ChordAngle) Add(other ChordAngle) ChordAngle
+//@   fp
+//@   timeout 200
+//@   requires vcChord(c) && vcChord(other)
+//@   ensures [at-most-straight] result <= 4
+//@   ensures [not-negative] result >= 0
+//@   ensures [zero-is-neutral] other == 0 ==> result == c
+
+//@ func (c ChordAngle) Sub(other ChordAngle) ChordAngle
+//@   fp
+//@   timeout 200
+//@   requires vcChord(c) && vcChord(other)
+//@   ensures [not-negative] result >= 0
+//@   ensures [zero-is-neutral] other == 0 ==> result == c
+//@   ensures [not-larger-gives-zero] c <= other && other != 0 ==> result == 0
+
+//@ func (c ChordAngle) Expanded(e float64) ChordAngle
+//@   fp
+//@   requires c.isValid() && e == e
+//@   ensures [valid] result.isValid()
+//@   ensures [special-unchanged] c.isSpecial() ==> result == c
+//@   ensures [clamped] !c.isSpecial() ==> result >= 0 && result <= 4
+//@   ensures [grows] !c.isSpecial() && e >= 0 ==> result >= c
